@@ -18,9 +18,9 @@ Record tabs : Type := { t_pre : table;   (* fPrefixHash *)
                         t_uri : table }. (* fUriHash *)
 Definition no_tabs : tabs := {| t_pre := []; t_uri := [] |}.
 
-(** Scope::addOrChangeBinding on initialised tables.  RefHashTableOf::removeKey throws NoSuchElementException when
-    the key is absent: [None] *)
-Definition bind_tabs (t : tabs) (p u : N) : option tabs :=
+(** Scope::addOrChangeBinding on initialised tables, as found: the uri -> prefix entry of the prefix's old URI is
+    removed unconditionally; RefHashTableOf::removeKey throws NoSuchElementException when the key is absent: [None] *)
+Definition bind_tabs_old (t : tabs) (p u : N) : option tabs :=
   match aget p (t_pre t) with
   | Some old =>
     match aget old (t_uri t) with
@@ -29,6 +29,18 @@ Definition bind_tabs (t : tabs) (p u : N) : option tabs :=
     end
   | None => Some {| t_pre := aput p u (t_pre t); t_uri := aput u p (t_uri t) |}
   end.
+
+(** repaired (fixes/C12-normalizer-scope.patch): the entry is removed only if it names this very prefix *)
+Definition bind_tabs (t : tabs) (p u : N) : option tabs :=
+  let uri0 :=
+    match aget p (t_pre t) with
+    | Some old => match aget old (t_uri t) with
+                  | Some p' => if p' =? p then aremove old (t_uri t) else t_uri t
+                  | None => t_uri t
+                  end
+    | None => t_uri t
+    end in
+  Some {| t_pre := aput p u (t_pre t); t_uri := aput u p uri0 |}.
 
 (** the stack of scopes, innermost first; [None] = a scope that has not had to create its tables *)
 Definition nsstate := list (option tabs).
@@ -51,6 +63,25 @@ Definition ns_step (st : nsstate) (o : nsop) : option nsstate :=
       match bind_tabs t p u with Some t' => Some (Some t' :: rest) | None => None end
     | [] => None
     end
+  end.
+
+Definition ns_step_old (st : nsstate) (o : nsop) : option nsstate :=
+  match o with
+  | Bind p u =>
+    let st1 := match st with [] => [None] | _ => st end in
+    match st1 with
+    | top :: rest =>
+      let t := match top with Some t => t | None => visible rest end in
+      match bind_tabs_old t p u with Some t' => Some (Some t' :: rest) | None => None end
+    | [] => None
+    end
+  | _ => ns_step st o
+  end.
+
+Fixpoint ns_run_old (ops : list nsop) (st : nsstate) : option nsstate :=
+  match ops with
+  | [] => Some st
+  | o :: r => match ns_step_old st o with Some st' => ns_run_old r st' | None => None end
   end.
 
 Fixpoint ns_run (ops : list nsop) (st : nsstate) : option nsstate :=
